@@ -119,3 +119,48 @@ fn rac_document_tiles() {
     }
     println!("RAC-OK document_tiles cases={} nontrivial={} bound=len<=4-over-15-symbols+<=4-of-17-fragments", cases, nontrivial);
 }
+
+// Runtime contract check of Document::condense_indices, whose contract the Verus unit `document`
+// assumes (the body uses peekable(), outside Verus): for every token list of length 0..=7 (one char
+// per token, distinct kinds), stretch lengths 1..=3 and every index list with non-overlapping
+// in-range stretches: each listed index absorbs the stretch_len-1 tokens after it (span end extended),
+// absorbed tokens are deleted, everything else is unchanged.
+#[test]
+fn rac_condense_indices() {
+    let mut cases = 0u64;
+    let mut nontrivial = 0u64;
+    for len in 0..=7usize {
+        for st in 1..=3usize {
+            for mask in 0u32..(1 << len) {
+                let idx: Vec<usize> = (0..len).filter(|i| mask & (1 << i) != 0).collect();
+                if idx.iter().any(|i| i + st > len) || idx.windows(2).any(|w| w[0] + st > w[1]) {
+                    continue;
+                }
+                let toks: Vec<Token> = (0..len).map(|i| Token::new(Span::new(i, i + 1), TokenKind::Space(i + 1))).collect();
+                let mut doc = Document { source: Lrc::new(vec!['x'; len]), tokens: toks.clone() };
+                let r = std::panic::catch_unwind(std::panic::AssertUnwindSafe(|| { doc.condense_indices(&idx, st); }));
+                cases += 1;
+                if !idx.is_empty() && st > 1 { nontrivial += 1; }
+                let mut want: Vec<Token> = vec![];
+                let mut i = 0;
+                while i < len {
+                    if idx.contains(&i) {
+                        let mut t = toks[i].clone();
+                        t.span.end = toks[i + st - 1].span.end;
+                        want.push(t);
+                        i += st;
+                    } else {
+                        want.push(toks[i].clone());
+                        i += 1;
+                    }
+                }
+                if r.is_err() || doc.tokens != want {
+                    println!("RAC-CEX condense_indices {{\"len\": {}, \"stretch_len\": {}, \"indices\": {:?}, \"panicked\": {}, \"got\": {:?}, \"want\": {:?}}}", len, st, idx, r.is_err(),
+                             doc.tokens.iter().map(|t| (t.span.start, t.span.end)).collect::<Vec<_>>(), want.iter().map(|t| (t.span.start, t.span.end)).collect::<Vec<_>>());
+                    panic!("condense_indices contract violated");
+                }
+            }
+        }
+    }
+    println!("RAC-OK condense_indices cases={} nontrivial={} bound=len<=7,stretch<=3,all-admissible-index-lists", cases, nontrivial);
+}
